@@ -74,7 +74,10 @@ def gen_scenario(rng, sid):
           "frame0": make_frame(cols, n0, rng, kvals, jvals), "offsets0": offsets(n0, old_rgs),
           "prior": [], "frame1": make_frame(cols, n1, rng, kvals + ([5] if rng.random() < 0.3 else []), jvals + (["n"] if rng.random() < 0.3 else [])),
           "offsets1": offsets(n1, new_parts), "new_parts": new_parts,
-          "compression": rng.choice([None, None, "GZIP"]), "stats": rng.choice(["auto", True, False])}
+          "compression": rng.choice([None, None, "GZIP"]), "stats": rng.choice(["auto", True, False]),
+          # how the dataset is ADDRESSED by the append (absolute path / relative to the working directory / './' / 'file://' URL) and
+          # what open_with is: the recorder's plain callables, or the bound open() of an fsspec file system object
+          "addr": rng.choice(["abs", "abs", "rel", "dot", "url"]), "opener": rng.choice(["callable", "fs"])}
     for _ in range(rng.choice([0, 0, 1, 2])):          # earlier successful appends: part numbers beyond the first write's
         m = rng.choice([1, 2, 4])
         sc["prior"].append({"frame": make_frame(cols, m, rng, kvals, jvals), "offsets": offsets(m, min(m, rng.choice([1, 2])))})
@@ -101,8 +104,22 @@ def do_write(root, sc, frame, offs, append, rec=None):
     kw = {}
     if rec is not None:
         kw = {"open_with": rec.open_with, "mkdirs": rec.mkdirs}
-    write(root, to_df(frame, sc["columns"]), file_scheme="hive", partition_on=list(sc["partition_on"]),
-          row_group_offsets=list(offs), append=append, compression=sc["compression"], stats=sc["stats"], **kw)
+        if sc.get("opener") == "fs":
+            kw["open_with"] = dsfs.rec_fs(rec).open
+    addr = sc.get("addr", "abs") if rec is not None else "abs"
+    cwd = os.getcwd()
+    try:
+        if addr in ("rel", "dot"):
+            os.chdir(os.path.dirname(root))
+            target = os.path.basename(root) if addr == "rel" else "./" + os.path.basename(root)
+        elif addr == "url" and sc.get("opener") == "fs":
+            target = "file://" + root
+        else:
+            target = root
+        write(target, to_df(frame, sc["columns"]), file_scheme="hive", partition_on=list(sc["partition_on"]),
+              row_group_offsets=list(offs), append=append, compression=sc["compression"], stats=sc["stats"], **kw)
+    finally:
+        os.chdir(cwd)
 
 
 def fresh_read(root, rec=None):
@@ -219,7 +236,7 @@ def run_scenario(arg):
         snap0 = dsfs.snapshot(pristine)
         out.update(refs=refs, nold=len(old_vals[0][1]), nnew=len(new_vals[0][1]), files0=sorted(snap0))
 
-        def one(k, variant, keep_data, after_failed=None):
+        def one(k, variant, keep_data, after_failed=None, rk=None):
             dsfs.restore(pristine, work)
             if after_failed is not None:
                 # fault sequence: an append that failed in call after_failed[0] came first (its debris - unreferenced part
@@ -230,7 +247,7 @@ def run_scenario(arg):
                         do_write(work, sc, sc["frame1"], sc["offsets1"], True, rec0)
                     except BaseException:        # noqa
                         pass
-            rec = dsfs.Recorder(work, fail_at=k, variant=variant, keep_data=keep_data)
+            rec = dsfs.Recorder(work, fail_at=k, variant=variant, keep_data=keep_data, fail_read_at=rk)
             raised = None
             with rec:
                 try:
@@ -239,14 +256,15 @@ def run_scenario(arg):
                     raised = "%s: %s" % (type(e).__name__, str(e)[:200])
             r = {"k": k, "variant": variant, "raised": raised, "fired": rec.fired, "ncalls": rec.n,
                  "trace": rec.trace, "kinds": rec.kinds, "bypassed": rec.bypassed, "fired_at": rec.fired_at,
-                 "after_failed": list(after_failed) if after_failed else None}
+                 "after_failed": list(after_failed) if after_failed else None,
+                 "read_k": rk, "nreads": rec.rn, "rkinds": rec.rkinds}
             def reader():
                 rr = dsfs.Recorder(work)
                 with rr:
                     pf, vals = fresh_read(work, rr)
                 return vals, dsfs.refs_of(pf), sorted(set(x for x in rr.reads if x not in ("",)))
 
-            if raised is not None and rec.fired is not None and rec.fired[2] == dsfs.MD and dsfs.md_open_index(rec.trace) is not None:
+            if raised is not None and rec.fired is not None and dsfs.summaryish(rec.fired[2]) and dsfs.md_open_index(rec.trace) is not None:
                 # _metadata was write-opened and the failing call names it: the summary IS being rewritten (outside the
                 # property) and may be torn; nothing is claimed about such a state, so it is not opened
                 r["read"] = "not-read(fault inside the rewrite of _metadata)"
@@ -272,7 +290,7 @@ def run_scenario(arg):
             return r
 
         if only is not None:                      # replay of one run
-            out["runs"].append(one(only[0], only[1], False, only[2] if len(only) > 2 else None))
+            out["runs"].append(one(only[0], only[1], False, only[2] if len(only) > 2 else None, only[3] if len(only) > 3 else None))
             return out
         b = one(None, "pre", True)
         out["runs"].append(b)
@@ -288,6 +306,11 @@ def run_scenario(arg):
             if hangs >= 3:          # every one of them is reported; do not spend the budget waiting for more of the same
                 out["cut_short_after_hangs"] = k
                 break
+        # READ side of the append (wave 3): the k-th open-for-reading / read call the append issues (opening the existing
+        # _metadata, parsing its footer) fails - before it has an effect, or after it was performed
+        for rk in range(1, b["nreads"] + 1):
+            for v in ("pre", "post"):
+                out["runs"].append(one(None, v, False, None, rk))
         # fault sequences: a failed append (at about 1/4, 1/2, 3/4 of the calls before _metadata) followed by a retry -
         # fault-free, and failing once more at the same call
         mdi = dsfs.md_open_index(b["trace"])
@@ -321,7 +344,7 @@ def judge(sc, res, r):
         if r["read"] != "new":
             problems.append(("returned-but-not-new-content",
                              "append returned normally but a fresh open reads %s content (%s)" % (r["read"], r.get("read_detail"))))
-    elif phase == "before_md" or (r["fired"] and r["fired"][2] not in (dsfs.MD, dsfs.CMD)):
+    elif phase == "before_md" or (r["fired"] and not dsfs.summaryish(r["fired"][2])):
         # the failing call came before any write-open of _metadata, or it names a part file / directory (the append was
         # still writing data, so by "parts first, summary last" the summary must not have been touched yet)
         if phase != "before_md":
@@ -347,6 +370,7 @@ def run(ctx):
     ctx.coq_file(os.path.join(C.COQ, "props", "C19.v"))
     bad = C.hygiene()
     ctx.obligation("hygiene: no Admitted/Axiom/Parameter/... in coq/", not bad, "; ".join(bad))
+    dsfs.partnames_translator(ctx)
     chk = dsfs.coqchk_start(C.COQ, "C19") if not ctx.quick() else None
     C.use_shadow()
     C.pqref()
@@ -355,6 +379,7 @@ def run(ctx):
     ctx.rule = ("scenario = hive dataset (0..2 partition columns, 1..3 or 10..13 row groups, 0..2 earlier appends, codec/stats varied) + an append of 1..4 new "
                 "row groups; for EVERY k = 1..N (N = number of mkdir/open-for-write/write/close calls the fault-free append issues) and every variant "
                 "(fail before the call has an effect / after it / short write) the real append runs with the k-th call failing, then a fresh open; "
+                "plus READ-side faults: every open-for-reading / read call the append issues (existing _metadata) failing before / after it is performed; "
                 "plus fault SEQUENCES: a failed append (at 1/4, 1/2, 3/4 of the calls) followed by a retry, fault-free and failing again at the same call; "
                 "a case is (scenario, k, variant[, preceding failure]); the fault-free run of a scenario is the only trivial one")
     scs = [gen_scenario(rng, i) for i in range(nsc)]
@@ -391,6 +416,8 @@ def run(ctx):
         ctx.correspondence("FsPaths.find_max_part ~ writer.find_max_part", {"paths": l}, m, real_find_max_part(l))
     model_trace = {"equal": 0, "different": 0, "examples": []}
     strict = {"true": 0, "false": 0}
+    sym_info = {"true": 0, "false": 0}
+    gen_seen = {}
     cmds, meta = [], []
     for res in results:
         sc = by_id[res["id"]]
@@ -406,17 +433,23 @@ def run(ctx):
                          sf["step"] + 1, "raised " + sf["raised"] if sf["raised"] else "returned normally", sf["read"], sf["rows_read"],
                          sf["rows_expected"], sf["read_detail"] or ""))
             continue
+        ctx.count("addressing", "%s/%s" % (sc.get("addr", "abs"), sc.get("opener", "callable")))
         ctx.count("partition_columns", len(sc["partition_on"]))
         ctx.count("new_row_groups", sc["new_parts"])
         ctx.count("prior_appends", len(sc["prior"]))
         ctx.count("calls_per_append", (res["runs"][0]["ncalls"] // 20) * 20)
         refs = res["refs"]
         for r in res["runs"]:
-            case = {"scenario": sc, "k": r["k"], "variant": r["variant"], "after_failed": r.get("after_failed")}
+            case = {"scenario": sc, "k": r["k"], "variant": r["variant"], "after_failed": r.get("after_failed"), "read_k": r.get("read_k")}
             short = {"scenario": sc["id"], "k": r["k"], "variant": r["variant"], "fired": r["fired"], "raised": r["raised"],
-                     "after_failed": r.get("after_failed")}
-            ctx.case({"sc": sc["id"], "k": r["k"], "v": r["variant"], "f": sc["frame1"], "p": sc["partition_on"], "af": r.get("after_failed")},
-                     trivial=(r["k"] is None and not r.get("after_failed")))
+                     "after_failed": r.get("after_failed"), "read_k": r.get("read_k")}
+            ctx.case({"sc": sc["id"], "k": r["k"], "v": r["variant"], "f": sc["frame1"], "p": sc["partition_on"], "af": r.get("after_failed"), "rk": r.get("read_k")},
+                     trivial=(r["k"] is None and not r.get("after_failed") and r.get("read_k") is None))
+            if r.get("read_k") is not None:
+                ctx.count("fault_kind", "%s/%s" % (r["fired"][1] if r["fired"] else "not-reached", r["variant"]))
+                ctx.count("read_side_fault_outcome", "%s/%s" % ("raised" if r["raised"] else "returned", r["read"]))
+                if r["fired"] is None:
+                    ctx.obligation("fault injector reached read-side call %s of scenario %s" % (r["read_k"], sc["id"]), False, "the k-th read-side call was never issued")
             if r.get("after_failed"):
                 ctx.count("fault_sequence", "failed append, then %s" % ("fault-free retry" if r["k"] is None else "retry failing again"))
             if r["k"] is not None:
@@ -435,6 +468,8 @@ def run(ctx):
             meta.append(("safe", short, r))
             cmds.append(("safe_trace", [p.encode() for p in refs], dsfs.sx_trace([(c[0], c[1], b"") if c[0] == "write" else c for c in r["trace"]])))
             meta.append(("strict", short, r))
+            cmds.append(("safe_trace_gen", [p.encode() for p in refs], dsfs.sx_trace([(c[0], c[1], b"") if c[0] == "write" else c for c in r["trace"]])))
+            meta.append(("gen", short, r))
             # tie 2: what the fresh open opened for reading
             if "read_opens" in r:
                 allowed = set(r["refs_after"]) | {dsfs.MD}
@@ -452,7 +487,8 @@ def run(ctx):
     outs = pq.batch(cmds)
     if len(outs) != len(cmds):
         raise RuntimeError("pqref answered %d of %d commands" % (len(outs), len(cmds)))
-    for (kind, short, r), o in zip(meta, outs):
+    order = sorted(range(len(meta)), key=lambda i_: 0 if meta[i_][0] == "gen" else 1)
+    for (kind, short, r), o in [(meta[i_], outs[i_]) for i_ in order]:
         if kind == "model":
             mt = [[bytes(x) if isinstance(x, (bytes, bytearray)) else x for x in c] for c in o[0]] if isinstance(o, list) and o else o
             same = mt == [[x.encode() if isinstance(x, str) else x for x in c] for c in r]
@@ -464,7 +500,23 @@ def run(ctx):
             # information: the stricter relation `safe_trace` (_metadata before _common_metadata), which the code implements today
             strict["true" if o == 1 else "false"] += 1
             continue
+        if kind == "gen":
+            # the GENERAL commit-point relation (Dataset/CrashGen.v; C19_gen_* theorems): what the property needs; a code change
+            # that stays inside it (e.g. _metadata written to a temporary file and renamed) keeps this correspondence
+            ok = ctx.correspondence("check_safe_gen(recorded trace of the real append) = true", short, 1, o)
+            if not ok and len(ctx.broken) and "trace" not in ctx.broken[-1]:
+                ctx.broken[-1]["trace"] = dsfs.trace_json(r["trace"], 200)
+            gen_seen[(short["scenario"], short["k"], short["variant"], str(short.get("after_failed")), short.get("read_k"))] = o
+            continue
         if kind == "safe":
+            # today's code is also inside the stricter relation (summary files written in place, in either order); information,
+            # and a run-time check that the general relation contains it (sym accepted => gen accepted)
+            sym_info["true" if o == 1 else "false"] += 1
+            g = gen_seen.get((short["scenario"], short["k"], short["variant"], str(short.get("after_failed")), short.get("read_k")))
+            if o == 1 and g != 1:
+                ctx.correspondence("check_safe_trace_sym accepted => check_safe_gen accepted (the general relation contains the strict one)", short, 1, g)
+            continue
+        if kind == "safe_old":
             ok = ctx.correspondence("check_safe_trace_sym(recorded trace of the real append) = true", short, 1, o)
             if not ok and len(ctx.broken) and "trace" not in ctx.broken[-1]:
                 ctx.broken[-1]["trace"] = dsfs.trace_json(r["trace"], 200)
@@ -475,6 +527,7 @@ def run(ctx):
                                dict(sorted(dsfs.hashes(r["snap1"]).items())))
     pq.close()
     ctx.extra["strict_safe_trace_on_recorded_traces"] = strict
+    ctx.extra["safe_trace_sym_on_recorded_traces"] = sym_info
     ctx.extra["model_trace_vs_recorded_fault_free_trace"] = model_trace
     ctx.notes.append("Ops.append_trace (witness of the relation) equals the recorded fault-free call trace in %d of %d scenarios (information, not an obligation)" % (
         model_trace["equal"], model_trace["equal"] + model_trace["different"]))
@@ -493,7 +546,7 @@ def replay(rep):
     sc = case["scenario"]
     tmp = tempfile.mkdtemp(prefix="verif-C19-replay-", dir="/tmp")
     try:
-        res = run_scenario((sc, tmp, "quick", (case["k"], case["variant"], case.get("after_failed"))))
+        res = run_scenario((sc, tmp, "quick", (case["k"], case["variant"], case.get("after_failed"), case.get("read_k"))))
         if res["error"]:
             print(res["error"])
             return 1
@@ -506,7 +559,7 @@ def replay(rep):
             sc["partition_on"], res["nold"], len(res["refs"]), res["nnew"], sc["new_parts"]))
         if r.get("after_failed"):
             print("first an append failing in call %s (%s); judged is the retry:" % tuple(r["after_failed"]))
-        print("fault: k=%s variant=%s fired=%s" % (r["k"], r["variant"], r["fired"]))
+        print("fault: k=%s read-side k=%s variant=%s fired=%s" % (r["k"], r.get("read_k"), r["variant"], r["fired"]))
         print("append: %s" % ("raised " + r["raised"] if r["raised"] else "returned normally"))
         print("fresh open reads: %s %s   (phase: %s)" % (r["read"], r.get("read_detail", ""), phase))
         for sym, text in problems:
